@@ -23,6 +23,7 @@ pub fn c10_meta(tier: Tier) -> Meta {
             "Model-based: a history is a sequence of planning requests (length, direction) applied to ONE planner; the model says every returned transform must be a correct DFT of its own length and direction whatever came before. \
              Bounded-exhaustive: for each of {targets}+ target lengths up to {tmax} (highly composite 11-smooth lengths, p*2^k with Rader/Bluestein primes, a few fixed ones) a pool of <= 8 RELATED requests is derived from the target's own fresh plan via the plan-report hook (every stage of its AVX radix chain / every sub-recipe of its scalar or SSE recipe, Rader/Bluestein inner lengths, multiples of the target, and two opposite-direction requests), and ALL sequences of length <= 3 over the pool are run on the Scalar, Sse and Avx planners, f32 and f64. \
              Pairs: every (M, p) with p prime <= 400 (quick) / 2048 (thorough) and M = 2^a*3^b in [2p,12p]: the history [M, p, p'] (a cached M is a candidate Bluestein inner length). \
+             Window-fill: proptest-drawn histories of 2-5 requests with lengths inside [2p-1, 4p] (all of them candidate inner lengths) followed by a Bluestein prime p and a multiple of it. \
              Random: {cases} proptest-drawn histories of length 1..12 over the divisor lattices of 5040*{{1,11,13,59,251}} and 2^a*3^b lengths (Bluestein inner sizes), all four planners. \
              Oracle for EVERY transform returned in a history: len()/fft_direction(); C02 bound on a dense vector and C01 tolerance on an impulse against the reference DFT, through a rotating entry point with exactly the advertised scratch; C06 round trip whenever both directions of a length were returned; all of it after the planner has been dropped; and a twin planner fed the same history must return transforms with bit-identical outputs. \
              Non-trivial: the history contains a request that the planner splices onto something an earlier request built (AVX: plan shows CacheBase(b), b < n; scalar/SSE: a sub-recipe length built earlier in that direction), as reported by the plan-report hook just before the request.",
@@ -201,6 +202,24 @@ pub fn c10_worker(ctx: &mut Ctx) {
         Case::new("C10", "history", PLANNERS[pl], TYS[ty], Dir::Fwd, n).with_source(Source::History { reqs, pick: len }).with_input(InputSpec::fam("uniform", seed))
     });
     ctx.run_random("random-histories", cases / ctx.nshards as u32, strat);
+    // window-fill histories: several earlier requests whose lengths are all CANDIDATE inner lengths of a later Bluestein
+    // request (any length in [2p-1, 4p]), then the prime itself and a multiple; the twin-planner comparison inside the
+    // oracle makes any dependence on per-instance state (e.g. hash-map iteration order) visible
+    let fams = Families::new(2048);
+    let blue: Vec<usize> = fams.fams.iter().find(|f| f.0 == "prime_bluestein").map(|f| f.1.clone()).unwrap_or_default();
+    let nb = blue.len().max(1);
+    let strat2 = (0..nb, proptest::collection::vec(any::<u16>(), 2..=5), 0..4usize, 0..2usize, 0..2usize, 1..=4usize, any::<u64>()).prop_map(move |(bi, fills, pl, ty, dir, mult, seed)| {
+        let p = blue[bi % blue.len()];
+        let lo = 2 * p - 1;
+        let span = 2 * p + 2;
+        let d = DIRS[dir];
+        let mut reqs: Vec<Req> = fills.iter().map(|f| Req { n: lo + (*f as usize * span >> 16), dir: d }).collect();
+        reqs.push(Req { n: p, dir: d });
+        reqs.push(Req { n: p * mult, dir: d });
+        let len = reqs.len();
+        Case::new("C10", "history", PLANNERS[pl], TYS[ty], d, p).with_source(Source::History { reqs, pick: len }).with_input(InputSpec::fam("uniform", seed))
+    });
+    ctx.run_random("window-fill-histories", cases / 2 / ctx.nshards as u32, strat2);
 }
 
 // =============================================================================================
